@@ -26,32 +26,49 @@ type twin struct {
 	lo, hi, mid cty.Value // lo < mid < hi under exact comparison
 }
 
+// twinPrecs: the pairs of precisions one decimal text is held at. 53 = float64 (built with NumberFloatVal, so
+// that its GoString differs from the parsed twin's), the others are parsed at that precision.
+var twinPrecs = [][2]uint{{53, 512}, {100, 512}, {24, 53}, {200, 64}}
+
+func atPrec(d string, prec uint) cty.Value {
+	f, _, err := big.ParseFloat(d, 10, prec, big.ToNearestEven)
+	if err != nil {
+		panic(err)
+	}
+	if prec == 53 {
+		f64, _ := f.Float64()
+		return cty.NumberFloatVal(f64)
+	}
+	if prec == 512 {
+		return cty.MustParseNumberVal(d)
+	}
+	return cty.NumberVal(f)
+}
+
 func twins() []twin {
 	var out []twin
-	for _, d := range twinTexts {
-		a := cty.MustParseNumberVal(d) // 512 bits
-		f64, _ := a.AsBigFloat().Float64()
-		b := cty.NumberFloatVal(f64) // 53 bits
-		c := a.AsBigFloat().Cmp(b.AsBigFloat())
-		if c == 0 {
-			continue
+	for pi, pp := range twinPrecs {
+		for ti, d := range twinTexts {
+			if pi > 0 && ti > 2 {
+				continue // the further precision pairs run on the first three texts only
+			}
+			a, b := atPrec(d, pp[0]), atPrec(d, pp[1])
+			c := a.AsBigFloat().Cmp(b.AsBigFloat())
+			if c == 0 {
+				continue
+			}
+			lo, hi := a, b
+			if c > 0 {
+				lo, hi = b, a
+			}
+			m := new(big.Float).SetPrec(700).Add(lo.AsBigFloat(), hi.AsBigFloat())
+			m.Quo(m, big.NewFloat(2))
+			out = append(out, twin{lo, hi, cty.NumberVal(m)})
 		}
-		lo, hi := a, b
-		if c > 0 {
-			lo, hi = b, a
-		}
-		m := new(big.Float).SetPrec(700).Add(lo.AsBigFloat(), hi.AsBigFloat())
-		m.Quo(m, big.NewFloat(2))
-		out = append(out, twin{lo, hi, cty.NumberVal(m)})
 	}
 	return out
 }
 
-// twinWeakenings returns unknown numbers that admit x (one of t.lo, t.mid, t.hi), bounded
-// by the three values of the twin: every lower bound b with b < x exactly (inclusive and
-// exclusive) or b == x (inclusive), likewise every upper bound, alone and in pairs, with
-// and without not-null. "Admits" is decided by exact comparison, which is what the
-// refinement builder itself uses when it checks a bound against a known value.
 type bd struct {
 	v   cty.Value
 	inc bool
